@@ -407,6 +407,11 @@ def r20_6(ctx):
         if isinstance(st.value, ast.Constant) and not st.value.value:
             continue
         conj = set(chain_conjuncts(cfg, st, f.node, f.module))
+        # a ``return True`` inside ``for v in <iterable>: if test(v): return True`` is ``any(test(v) for v in <iterable>)``:
+        # the iterable belongs to the condition
+        for outer in cfg.enclosing(st):
+            if isinstance(outer, ast.For):
+                conj.add("for-in " + unparse(_inline(outer.iter, fdefs, module=f.module)))
         if not (isinstance(st.value, ast.Constant) and st.value.value is True):
             for lit in _conjuncts(_nnf(_inline(st.value, fdefs, module=f.module), True)):
                 ast.fix_missing_locations(lit)
@@ -415,7 +420,10 @@ def r20_6(ctx):
     # a plain Blockwise observes its inputs' grid (a) when it is not aligned at lowering (map_blocks: block_info payloads)
     # and (b) when adjust_chunks holds a per-block tuple - a literal with one entry per INPUT block
     consults_alignment = any("type(self) is Blockwise" in cj and any("align_arrays" in c and c.startswith("not ") for c in cj) for cj in truth_paths)
-    consults_literal = any("type(self) is Blockwise" in cj and any("adjust_chunks" in c and ("tuple" in c or "list" in c) for c in cj) for cj in truth_paths)
+    consults_literal = any(
+        "type(self) is Blockwise" in cj and "adjust_chunks" in " ".join(sorted(cj)) and any(("tuple" in c or "list" in c) and "isinstance" in c for c in cj)
+        for cj in truth_paths
+    )
     if not consults_alignment:
         ctx.finding(rr, site(f), f"Blockwise._requires_grid_preservation returns {rets}; it no longer declares an un-aligned plain Blockwise grid sensitive (`type(self) is Blockwise and not self.align_arrays`)", func=f)
     c2 = site(f) + "::per-block adjust_chunks tuple"
